@@ -14,7 +14,16 @@ def main():
         from vc import e3bridge
         sys.exit(e3bridge.rerun_replay(a.arg))
     from vc import runner
-    sys.exit(runner.run_check(a.what, a.tier, seed))
+    try:
+        rc = runner.run_check(a.what, a.tier, seed)
+    except SystemExit:
+        raise
+    except BaseException as e:     # a crash of the checker is never a violation
+        import traceback
+        traceback.print_exc()
+        print("CHECKER-ERROR: %r" % (e,))
+        rc = 3
+    sys.exit(rc)
 
 
 if __name__ == "__main__":
